@@ -377,23 +377,19 @@ impl GrantReleaser for BufferManager {
     }
 
     fn try_allocate_raw(&self, size: usize, region: MemoryRegion) -> bool {
-        let current = self.allocated.load(Ordering::Relaxed);
-
-        if current + size > self.hard_limit {
+        // Reserve atomically, exactly as `try_allocate` does: the limit check and the increment
+        // are one step, so concurrent resizes can never push the total above the hard limit
+        // (and `current + size` cannot overflow).
+        if !self.try_reserve(size) {
             #[cfg(grafeo_verif)]
             crate::verif::yield_point("buffer.try_allocate_raw.after_first_load");
             // Try eviction
             self.run_eviction_cycle(true);
 
-            let current = self.allocated.load(Ordering::Relaxed);
-            if current + size > self.hard_limit {
+            if !self.try_reserve(size) {
                 return false;
             }
         }
-        #[cfg(grafeo_verif)]
-        crate::verif::yield_point("buffer.try_allocate_raw.after_check");
-
-        self.allocated.fetch_add(size, Ordering::Relaxed);
         #[cfg(grafeo_verif)]
         crate::verif::yield_point("buffer.try_allocate_raw.after_add");
         self.region_allocated[region.index()].fetch_add(size, Ordering::Relaxed);
